@@ -17,11 +17,24 @@ var (
 	extraHook  atomic.Pointer[func(string)]
 )
 
+// resolveCount bounds the number of documents resolved by one call separately: every one of them
+// unmarshals a whole document, so unbounded recursion through the loader eats memory long before
+// the general budget is reached.
+var resolveCount atomic.Int64
+
+const resolveBudget = 3000
+
 func init() {
 	stepBudget.Store(200_000)
 	f := func(point string) {
 		if g := extraHook.Load(); g != nil {
 			(*g)(point)
+		}
+		if point == "resolve" {
+			if n := resolveCount.Add(1); n > resolveBudget && stepBudget.Load() < 1<<61 {
+				resolveCount.Store(0)
+				panic(stepsExceeded{})
+			}
 		}
 		if n := stepCount.Add(1); n > stepBudget.Load() {
 			stepCount.Store(0)
